@@ -12,6 +12,22 @@ class ConCtx(CtxBase):
         self.inputs = inputs
         self.missing = []
 
+    def alloc_begin(self, limit):
+        import tracemalloc
+        self._alloc_limit = limit
+        tracemalloc.start()
+        tracemalloc.reset_peak()
+        self._alloc_base = tracemalloc.get_traced_memory()[0]
+
+    def alloc_end(self):
+        """-> True if the peak of traced allocations since alloc_begin exceeded the limit"""
+        import tracemalloc
+        if not tracemalloc.is_tracing():
+            return False
+        peak = tracemalloc.get_traced_memory()[1] - self._alloc_base
+        tracemalloc.stop()
+        return peak > self._alloc_limit
+
     def decoy_ctx(self, dcfg):
         sub = ConCtx(dcfg, self.inputs)
         sub.prefix = 'decoy.'
